@@ -419,13 +419,15 @@ REL_MODE_DESC = {0: "determinism: identical record and frame, independent fresh 
                  4: "C17 threads: interface A alone vs interface A with interface B's same-class handler running inside one of A's platform calls"}
 
 
-def q_rel(mode, K=2, only=None, preempt_at=None):
+def q_rel(mode, K=2, only=None, preempt_at=None, extra_defs=None):
     qs = []
     for (cid, name, live, defs, maxsend) in REL_CLASSES:
         if only and name not in only:
             continue
         if preempt_at is not None:
             defs = defs + ["V_PREEMPT", "PREEMPT_AT=%d" % preempt_at]
+        if extra_defs:
+            defs = defs + list(extra_defs)
         rep = unreach(*live)
         if name.startswith("qltlv_") is False and cid == 11:
             pass
@@ -444,7 +446,15 @@ def q_rel(mode, K=2, only=None, preempt_at=None):
               "direct cross-check with the record created by the real lltd_state_for_iface on a fresh registry, continuation length 1 per class",
               "Emit continuation bounded to 3 descriptors; Hello with hostname length 33 / SSID length 7; observation list bound K=2; platform large-property data identical in both worlds (same getter results)"])
 def c09(tier, seed):
-    qs = [q_reset(tier, 3)] + q_rel(1) + q_rel(2)
+    # induction step in two variants; the Reset class query tells which one applies (auxiliary condition AUX:reset_zeroes_seq_gen):
+    #  strong relation (sequence/generation numbers equal) if the Reset zeroes them, weak relation (they may differ) otherwise
+    strong = q_rel(1, extra_defs=["REL_SEQ_EQUAL"])
+    for q in strong:
+        q.guard = ("AUX:reset_zeroes_seq_gen", True)
+    weak = q_rel(1)
+    for q in weak:
+        q.name = q.name.replace("blk_rel1_", "blk_rel1w_"); q.guard = ("AUX:reset_zeroes_seq_gen", False)
+    qs = [q_reset(tier, 3)] + strong + weak + q_rel(2)
     if tier == "thorough":
         qs += [q for q in q_rel(1, K=3) + q_rel(2, K=3)]
         for q in qs[-18:]:
